@@ -540,6 +540,78 @@ theorem c14_streamed_text (limit : Int) (stops : List Bytes) (evs : List Ev) (ho
   · intro hd
     exact ((consumer_schedule_independent false limit stops evs cap tail sched).2.2 hd).1
 
+/-! ### 5d. one level up: the `completion` HTTP handler and the client -/
+
+/-- **What the client receives.**  For the handler's lines of any finished or cancelled run: the
+    concatenation of the `content` fields is the streamed text `f.outText`, the `done_reason` of the
+    final object is the sequence's reason, and therefore (reason_map) it is `length` exactly when the
+    prediction limit ended generation and `stop` exactly when EOS or a stop string did — in
+    particular when EOS or the token completing a stop string is the last token the limit permits. -/
+theorem client_receives (pinned : Bool) (limit : Int) (stops : List Bytes) (evs : List Ev) (promptLen : Nat) :
+    let f := run pinned limit stops init evs
+    let ls := handlerLines promptLen f
+    clientText ls = f.outText ∧
+    (clientReason ls = some .length ↔ f.cause = some .limit) ∧
+    (clientReason ls = some .stop ↔ (f.cause = some .eos ∨ ∃ s, f.cause = some (.stopString s))) ∧
+    (clientReason ls = none ↔ f.cause = none) := by
+  intro f ls
+  obtain ⟨h1, h2⟩ := client_view promptLen f
+  obtain ⟨ha, hb, hc⟩ := reason_map pinned limit stops evs
+  refine ⟨h1, ?_, ?_, ?_⟩
+  · rw [show clientReason ls = f.done from h2]; exact ha
+  · rw [show clientReason ls = f.done from h2]; exact hb
+  · rw [show clientReason ls = f.done from h2]; exact hc
+
+/-- **EOS on the last permitted token is reported as "stop".**  If the script is `ps` pieces followed
+    by EOS, the limit is unlimited or at least `ps.length + 1` (so EOS may be exactly token number
+    `limit`), and no stop string ended the run earlier, then EOS ended it and the client reads `stop`. -/
+theorem eos_on_last_permitted_token (pinned : Bool) (limit : Int) (stops : List Bytes)
+    (ps : List Bytes) (rest : List Ev) (promptLen : Nat)
+    (hl : limit ≤ 0 ∨ (ps.length : Int) < limit) :
+    let f := run pinned limit stops init (ps.map Ev.piece ++ Ev.eos :: rest)
+    (∀ s, f.cause ≠ some (.stopString s)) →
+      f.cause = some .eos ∧ clientReason (handlerLines promptLen f) = some .stop := by
+  intro f hns
+  have hcs := cause_spec pinned limit stops (ps.map Ev.piece ++ Ev.eos :: rest)
+  have hpre : f.gen.map Ev.piece <+: ps.map Ev.piece ++ Ev.eos :: rest := hcs.1
+  have hlim : f.cause = some .limit → limit > 0 ∧ (f.gen.length : Int) = limit ∧ f.numPredicted = f.gen.length :=
+    hcs.2.2.1
+  have hnone : f.cause = none → f.gen.length = (ps.map Ev.piece ++ Ev.eos :: rest).length ∧
+      ¬ (limit > 0 ∧ (f.gen.length : Int) ≥ limit) := hcs.2.2.2.1
+  have hkey : ∀ (g : List Bytes), g.map Ev.piece <+: ps.map Ev.piece ++ Ev.eos :: rest → g.length ≤ ps.length := by
+    intro g hg
+    by_cases hlen : g.length ≤ ps.length
+    · exact hlen
+    · exfalso
+      have hi : ps.length < (g.map Ev.piece).length := by simp; omega
+      have h1 := List.IsPrefix.getElem hg hi
+      simp [List.getElem_append_right] at h1
+  have hcause : f.cause = some .eos := by
+    cases hc : f.cause with
+    | none =>
+      have := (hnone hc).1
+      have h2 := hkey f.gen hpre
+      simp at this; omega
+    | some c =>
+      cases c with
+      | eos => rfl
+      | stopString s => exact absurd hc (hns s)
+      | limit =>
+        obtain ⟨hpos, heq, _⟩ := hlim hc
+        have h2 := hkey f.gen hpre
+        rcases hl with h | h <;> omega
+  refine ⟨hcause, ?_⟩
+  rw [(client_view promptLen f).2]
+  exact ((reason_map pinned limit stops _).2.1).mpr (Or.inl hcause)
+
+/-- the boundary situation exists: limit 2, EOS is token 2 → cause EOS, final object says `stop`,
+    `eval_count = 2`; with limit 1 the limit ends it first → `length` -/
+example :
+    handlerLines 3 (run false 2 [] init [Ev.piece [0x61], Ev.eos]) =
+      [Line.content [0x61], Line.final .stop 3 2] ∧
+    handlerLines 3 (run false 1 [] init [Ev.piece [0x61], Ev.eos]) =
+      [Line.content [0x61], Line.final .length 3 1] := by decide
+
 /-! ### 6. witnesses of the defects the model shares with the code -/
 
 
